@@ -441,11 +441,15 @@ FallBack ==
   /\ cur' = NoCur
   /\ UNCHANGED <<maxEver, dur>>
 
-ReorgAcceptable(n) == cur.n = 0 /\ n <= Height /\ n >= 0 /\ maxEver <= n + W
+ApiHeight == IF Height < 0 THEN 0 ELSE Height          \* an empty database reports height 0
 
+ReorgAcceptable(n) == cur.n = 0 /\ n <= ApiHeight /\ n >= 0 /\ maxEver <= n + W
+
+(* Truncation to the end of block n.  Also for n = current height: whatever was submitted for the   *)
+(* block above n since the last boundary (transactions parked in the pending pool) goes as well.   *)
 ReorgOk(n) ==
   /\ ReorgAcceptable(n)
-  /\ IF n = Height
+  /\ IF Height < 0
      THEN UNCHANGED vars
      ELSE /\ chain' = SubSeq(chain, 1, n + 1)
           /\ snaps' = SubSeq(snaps, 1, n + 1)
